@@ -155,6 +155,8 @@ def b_filter(reg, eng, st, args, kwargs, node):
 
 
 def _filter_sym(reg, eng, st, f, v):
+    if v.t[0] in ("list", "tuple") and v.x and all(e.t == ("str",) for e in v.x):
+        return [(st, fresh("Bag[Str]", "filtered"))]  # message fragments: text level is not modelled
     raise OutOfSubset("symbolic filter()")
 
 
